@@ -24,10 +24,11 @@ SCOPE = {
              "seeded sample of ordered snippet pairs (31 snippets: attach, analyze, prune, False flags, removed nodes, "
              "extras, tags, attackers sharing a name, attacker with explicit id 0 / 5, compromise, remove attacker); "
              "hand-built graphs without assets: all graphs on <=2 nodes over 15 node variants x all edge sets (self loops "
-             "included) x 3 rotating attacker histories, + seeded random graphs of 3-4 nodes with random histories; "
+             "included) x one of 5 attacker / removal histories in rotation (1-node graphs: all 5), + 1000 seeded random graphs of 3-4 nodes with random histories; "
              "each x {json file, yml file, _to_dict/_from_dict} x {model absent, model given}, + _from_dict of the same "
              "mapping with its entries listed in reverse order",
-    "thorough": "same spaces; all ordered snippet pairs for generated graphs, 40000 random hand-built graphs of 3-4 nodes",
+    "thorough": "same spaces; all ordered snippet pairs for generated graphs, all 5 histories for every hand-built graph on <=2 "
+                "nodes, 40000 random hand-built graphs of 3-4 nodes",
 }
 EXHAUSTIVE = {"quick": False, "thorough": False}
 RULE = ("case = (graph recipe, history, list of (format, model?) configurations); every configuration is one round trip "
@@ -201,13 +202,12 @@ def _hand_cases(tier, rnd):
         for vs in itertools.product(range(len(VARIANTS)), repeat=n):
             for mask in range(1 << len(pairs)):
                 edges = [list(pairs[k]) for k in range(len(pairs)) if mask >> k & 1]
-                for r in range(3):
-                    h = HAND_HISTORIES[(cnt + r) % len(HAND_HISTORIES)] if r else HAND_HISTORIES[0]
-                    if r == 0 and cnt % 3:
-                        continue
-                    yield {"kind": "hand", "nodes": _hand_nodes(vs), "edges": edges, "ops": h}
+                reps = (0,) if (tier == "quick" and n == 2) else range(len(HAND_HISTORIES))
+                for r in reps:
+                    yield {"kind": "hand", "nodes": _hand_nodes(vs), "edges": edges,
+                           "ops": HAND_HISTORIES[(cnt + r) % len(HAND_HISTORIES)]}
                 cnt += 1
-    count = 1500 if tier == "quick" else 40000
+    count = 1000 if tier == "quick" else 40000
     for _ in range(count):
         n = rnd.randint(3, 4)
         vs = [rnd.randrange(len(VARIANTS)) for _ in range(n)]
